@@ -290,6 +290,56 @@ def rw_cfg_statements(text, security, fired):
     return ed.apply()
 
 
+def rw_iflet_map(text, nth, fired, fname):
+    """R17: the nth statement of the form `EXPR.map(|PAT| BODY);` (value discarded) becomes
+    `if let Some(PAT) = EXPR { BODY }`"""
+    src = Src(text)
+    cnt = 0
+    for i in range(src.n()):
+        if src.s(i) == '.' and src.s(i + 1) == 'map' and src.s(i + 2) == '(' and src.s(i + 3) == '|':
+            close = src.match[i + 2]
+            if src.s(close + 1) != ';':
+                continue
+            # statement start: walk back to previous ';' '{' '}' at same depth
+            j = i - 1
+            while j >= 0:
+                sj = src.s(j)
+                if sj in rscan.CLOSE:
+                    j = src.match[j] - 1
+                    continue
+                if sj in (';', '{', '}') :
+                    break
+                j -= 1
+            start = j + 1
+            if src.s(start) in ('let', 'return') or any(src.s(k) == '=' for k in range(start, i) if True and src.t(k).kind == 'punct'):
+                continue
+            cnt += 1
+            if cnt != nth:
+                continue
+            # params
+            pe = i + 4
+            while src.s(pe) != '|':
+                if src.s(pe) in rscan.OPEN: pe = src.match[pe]
+                pe += 1
+            pat = text[src.t(i + 4).pos:src.t(pe - 1).end]
+            body_a = src.t(pe + 1).pos
+            body_b = src.t(close - 1).end
+            body = text[body_a:body_b]
+            if src.s(pe + 1) != '{':
+                body = '{ ' + body + '; }'
+            expr = text[src.t(start).pos:src.t(i - 1).end]
+            whole_a, whole_b = src.t(start).pos, src.t(close + 1).end
+            whole = text[whole_a:whole_b]
+            # keep line structure: expression and pattern on the first line(s) flattened, body verbatim
+            head = 'if let Some(%s) = %s ' % (pat.replace('\n', ' '), expr.replace('\n', ' '))
+            pre_nl = text[whole_a:body_a].count('\n')
+            post_nl = text[body_b:whole_b].count('\n')
+            new = head + '\n' * pre_nl + body + '\n' * post_nl
+            fired.append(('R17', src.line_of(whole_a), 'OPT.map(|x| ..); -> if let'))
+            return text[:whole_a] + new + text[whole_b:]
+    raise Undecided('lost-anchor', 'iflet_map %d: no such statement in %s' % (nth, fname))
+
+
 def closure_starts(src, lo, hi):
     """indices (sig) of the opening '|' or '||' of closures in [lo,hi)"""
     out = []
@@ -346,6 +396,158 @@ class FnText:
         self.fired = []
         self.attrs = it.attrs
         self.name = selector
+
+
+def _binders(src, lo, hi):
+    """identifiers bound by the pattern tokens [lo,hi): lower-case identifiers that are not path
+    segments, constructor / struct names or struct-pattern field names"""
+    out = []
+    for i in range(lo, hi):
+        t = src.t(i)
+        if t.kind != 'ident' or t.s in ('mut', 'ref', 'box', '_', 'let', 'for', 'while', 'if', 'in', 'self', 'true', 'false'):
+            continue
+        if not (t.s[0].islower() or t.s[0] == '_'):
+            continue
+        if src.s(i + 1) in ('::', '(', '{', '!') or src.s(i - 1) in ('::', '.'):
+            continue
+        if src.s(i + 1) == ':' and src.s(i + 2) != ':':
+            # `field: pat` inside a struct pattern is a field name; `x: T` in a let is a binder
+            inside_braces = False
+            d = 0
+            for k in range(i - 1, lo - 1, -1):
+                if src.s(k) == '}': d += 1
+                elif src.s(k) == '{':
+                    if d == 0:
+                        inside_braces = True; break
+                    d -= 1
+            if inside_braces:
+                continue
+        out.append(t.s)
+    return out
+
+
+class ArmText:
+    """R11 arm-to-function: one `match` arm of a function, located by its pattern token sequence,
+    cut into a generated `fn <name>(<params>) <arm block>`.  The arm block is the verbatim text;
+    the object has the interface of FnText so that splice_function treats it like a function.
+    Checked (else UNDECIDED): the pattern is unique in the function and starts an arm; the arm body
+    is a block; every parameter other than `self` is a binding of the arm pattern and every
+    binding of the pattern is a parameter; no other local of the enclosing function (parameters,
+    `let` / `while let` / `if let` / `for` bindings of the enclosing blocks) occurs in the arm."""
+
+    def __init__(self, repo, rel, selector, pattern, name, params, security=False, impl_re=None, nth=None):
+        self.rel, self.selector = rel, selector
+        src = load_src(repo, rel)
+        it = find_fn(src, selector, security, impl_re, nth)
+        if it.open_si is None:
+            raise Undecided('unsupported-construct', 'fn %s has no body' % selector)
+        ptoks = norm_tokens(pattern)
+        if ptoks and ptoks[-1] == '=>':
+            ptoks = ptoks[:-1]
+        needle = ' '.join(ptoks + ['=>'])
+        hit = find_token_seq(src, it.open_si + 1, it.end_si, needle, 1)
+        if hit is None:
+            raise Undecided('lost-anchor', 'arm %r not found in %s' % (pattern, selector))
+        if find_token_seq(src, it.open_si + 1, it.end_si, needle, 2) is not None:
+            raise Undecided('lost-anchor', 'arm %r is not unique in %s' % (pattern, selector))
+        p0, arrow = hit
+        if src.s(p0 - 1) not in ('{', ',', '}'):
+            raise Undecided('lost-anchor', 'arm %r of %s: pattern does not start a match arm' % (pattern, selector))
+        ob = arrow + 1
+        if src.s(ob) != '{':
+            raise Undecided('unsupported-construct', 'arm %r of %s: body is not a block' % (pattern, selector))
+        cb = src.match[ob]
+        a, b = src.t(ob).pos, src.t(cb).end
+        # ---- the inputs of the generated function are exactly `self` + the bindings of the pattern
+        psrc = Src(params)
+        pnames = []
+        depth_start = True
+        j = 0
+        while j < psrc.n():
+            s = psrc.s(j)
+            if s in rscan.OPEN:
+                j = psrc.match[j] + 1; continue
+            if s == '<':
+                j = psrc.skip_generics(j); continue
+            if s == ',':
+                depth_start = True
+            elif depth_start and psrc.t(j).kind == 'ident' and s not in ('mut',):
+                pnames.append(s); depth_start = False
+            j += 1
+        binders = _binders(src, p0, arrow)
+        for pn in pnames:
+            if pn != 'self' and pn not in binders:
+                raise Undecided('unsupported-construct', 'R11: parameter %s of %s is not a binding of the arm pattern' % (pn, name))
+        for bn in binders:
+            if bn not in pnames:
+                raise Undecided('unsupported-construct', 'R11: binding %s of the arm pattern is not a parameter of %s' % (bn, name))
+        outer = set()
+        # parameters of the enclosing function
+        fn_si = next(i for i in range(it.start_si, it.open_si) if src.s(i) == 'fn')
+        po = fn_si + 2
+        if src.s(po) == '<':
+            po = src.skip_generics(po)
+        if src.s(po) == '(':
+            outer.update(_binders(src, po + 1, src.match[po]))
+        # bindings of the enclosing blocks that are in scope at the arm
+        for o in range(it.open_si, p0):
+            if src.s(o) != '{' or src.match[o] < cb:
+                continue
+            # block header (while let / if let / for PAT in)
+            h = o - 1
+            while h > it.open_si and src.s(h) not in (';', '{', '}'):
+                if src.s(h) in rscan.CLOSE and src.s(h) != '}':
+                    h = src.match[h]
+                h -= 1
+            k = h + 1
+            while k < o:
+                if src.s(k) == 'let':
+                    e = k + 1
+                    while e < o and src.s(e) != '=':
+                        e += 1
+                    outer.update(_binders(src, k + 1, e)); k = e
+                elif src.s(k) == 'for' and src.s(k + 1) != '<':
+                    e = k + 1
+                    while e < o and src.s(e) != 'in':
+                        e += 1
+                    outer.update(_binders(src, k + 1, e)); k = e
+                k += 1
+            # `let` statements directly inside the block, before the arm
+            k = o + 1
+            while k < p0:
+                s = src.s(k)
+                if s in rscan.OPEN:
+                    if src.match[k] > p0:
+                        break   # the next enclosing block: handled by the outer loop
+                    k = src.match[k] + 1; continue
+                if s == 'let':
+                    e = k + 1
+                    dd = 0
+                    while e < p0 and not (dd == 0 and src.s(e) in ('=', ';')):
+                        if src.s(e) in rscan.OPEN: dd += 1
+                        elif src.s(e) in rscan.CLOSE: dd -= 1
+                        elif dd == 0 and src.s(e) == ':' :
+                            break
+                        e += 1
+                    outer.update(_binders(src, k + 1, e)); k = e
+                k += 1
+        outer.discard('self')
+        for i in range(ob + 1, cb):
+            t = src.t(i)
+            if t.kind == 'ident' and t.s in outer and t.s not in binders \
+                    and src.s(i - 1) not in ('.', '::') and src.s(i + 1) != '::':
+                raise Undecided('unsupported-construct', 'R11: arm %r of %s uses `%s`, a local of the enclosing function'
+                                % (pattern, selector, t.s))
+        hdr = 'fn %s(%s) ' % (name, ' '.join(params.split()))
+        self.orig = hdr + src.text[a:b]
+        self.first_line = src.line_of(a)
+        self.last_line = src.line_of(b)
+        self.arm_first_line = src.line_of(src.t(p0).pos)
+        self.sha = hashlib.sha256(src.text[src.t(p0).pos:b].encode()).hexdigest()
+        self.fired = [('R11', self.arm_first_line, 'match arm `%s` of %s cut into `%s`' % (' '.join(ptoks), selector, hdr.strip()))]
+        self.attrs = it.attrs
+        owner = selector.rsplit('::', 1)[0] if '::' in selector else ''
+        self.name = (owner.split(' for ')[-1].strip() + '::' if owner else '') + name
 
 
 def loops_in(src, lo, hi):
@@ -425,6 +627,43 @@ def find_token_seq(src, lo, hi, needle, nth=1):
     return None
 
 
+def closure_edits(src, text, d, ob, cb, ft):
+    """R6/R19 for one @@closure directive: returns (sig index of the closure start, [(a, b, new)])"""
+    cls = closure_starts(src, ob + 1, cb)
+    k = int(d.arg.split()[0])
+    if not (1 <= k <= len(cls)):
+        raise Undecided('lost-anchor', 'closure %d not found in %s (has %d)' % (k, ft.name, len(cls)))
+    ci = cls[k - 1]
+    if src.s(ci) == '||':
+        pend = ci
+        orig_params = []
+    else:
+        j = ci + 1
+        while src.s(j) != '|':
+            if src.s(j) in rscan.OPEN: j = src.match[j]
+            j += 1
+        pend = j
+        orig_params = [src.s(x) for x in range(ci + 1, pend) if src.t(x).kind == 'ident' and src.s(x) not in ('mut', 'ref')]
+    newhdr = d.payload.strip()
+    # annotation-only check: every identifier bound by the original parameter patterns
+    # must also occur in the replacement header
+    new_ids = set(t.s for t in rscan.tokenize(newhdr) if t.kind == 'ident')
+    for p in orig_params:
+        if p[0].islower() or p[0] == '_':
+            if p not in new_ids and p != '_':
+                raise Undecided('lost-anchor', 'closure %d of %s: parameter %s not in annotation' % (k, ft.name, p))
+    body_si = pend + 1
+    a = src.t(ci).pos
+    b = src.t(pend).end
+    if src.s(body_si) == '->':
+        raise Undecided('unsupported-construct', 'closure already has return type')
+    if src.s(body_si) == '{':
+        return ci, k, [(a, b, newhdr.replace('\n', ' ') + keep_newlines(text[a:b]))]
+    e = expr_end(src, body_si, cb)
+    return ci, k, [(a, b, newhdr.replace('\n', ' ') + ' {' + keep_newlines(text[a:b])),
+                   (src.t(e - 1).end, src.t(e - 1).end, ' }')]
+
+
 def splice_function(ft, directives, security=False):
     """returns list of (text_line, origin) for the function with contracts spliced"""
     fired = ft.fired
@@ -453,6 +692,9 @@ def splice_function(ft, directives, security=False):
                 continue
             si += 1
         text = ed.apply()
+    for d in directives:
+        if d.kind == 'iflet_map':
+            text = rw_iflet_map(text, int(d.arg.split()[0]) if d.arg.strip() else 1, fired, ft.name)
     if text.count('\n') != ft.orig.count('\n'):
         raise Undecided('unsupported-construct', 'internal: rewrite changed line count')
 
@@ -547,6 +789,7 @@ def splice_function(ft, directives, security=False):
         return k, lps[k - 1]
 
     desugared = {}
+    closures_in_header = set()
     for d in directives:
         if d.kind == 'desugar_for':
             k, (kw, lab, lob, lcb, kind) = loop_k(d)
@@ -564,7 +807,18 @@ def splice_function(ft, directives, security=False):
             if in_si is None:
                 raise Undecided('unsupported-construct', 'for without in')
             pat = text[src.t(kw + 1).pos:src.t(in_si - 1).end]
-            expr = text[src.t(in_si + 1).pos:src.t(lob - 1).end]
+            expr_a = src.t(in_si + 1).pos
+            expr = text[expr_a:src.t(lob - 1).end]
+            # a @@closure that sits inside the for-header expression (e.g. `.filter(|s| ..)`) is
+            # annotated in the copied expression text (the header is replaced wholesale below)
+            for d2 in directives:
+                if d2.kind == 'closure':
+                    ci2, k2, eds2 = closure_edits(src, text, d2, ob, cb, ft)
+                    if in_si < ci2 < lob:
+                        for (ea, eb, enew) in sorted(eds2, reverse=True):
+                            expr = expr[:ea - expr_a] + enew + expr[eb - expr_a:]
+                        closures_in_header.add(id(d2))
+                        fired.append(('R6', src.line_of(src.t(ci2).pos), 'closure %d annotated' % k2))
             pat2, pre = rw_ref_pattern(pat, fired, src.line_of(src.t(kw).pos))
             start = src.t(lab).pos if lab is not None else src.t(kw).pos
             labtxt = text[src.t(lab).pos:src.t(kw).pos] if lab is not None else ''
@@ -572,6 +826,11 @@ def splice_function(ft, directives, security=False):
             itn = 'it_%d' % k
             into = d.arg.split()[1] if len(d.arg.split()) > 1 else ''
             call = '' if into == 'noiter' else ''
+            if into == 'into_iter':
+                # (unit `matching`) `@@desugar_for k into_iter`: EXPR is not itself an iterator
+                # (e.g. a Vec) -> spell out the language's `IntoIterator::into_iter(EXPR)`
+                expr = '(' + expr + ')'
+                call = '.into_iter()'
             new1 = 'let mut %s = %s%s; ' % (itn, expr.replace('\n', ' '), call)
             new2 = '%sloop ' % labtxt
             new3 = '{ match %s.next() { None => { break; } Some(%s) => { %s' % (itn, pat2.replace('\n', ' '), pre)
@@ -662,6 +921,8 @@ def splice_function(ft, directives, security=False):
                         break
             if not found:
                 raise Undecided('lost-anchor', 'local %s not found in %s' % (nm, ft.name))
+        elif d.kind == 'closure' and id(d) in closures_in_header:
+            pass
         elif d.kind == 'closure':
             cls = closure_starts(src, ob + 1, cb)
             k = int(d.arg.split()[0])
@@ -679,6 +940,24 @@ def splice_function(ft, directives, security=False):
                 pend = j
                 orig_params = [src.s(x) for x in range(ci + 1, pend) if src.t(x).kind == 'ident' and src.s(x) not in ('mut', 'ref')]
             newhdr = d.payload.strip()
+            if len(d.arg.split()) > 1 and d.arg.split()[1] == 'pat':
+                # R19 (added for unit `matching`): `@@closure k pat` — the closure has ONE pattern
+                # parameter: `|PAT| BODY` -> `<header naming one typed parameter p> { let PAT = p; BODY }`
+                # (PAT verbatim, R5 applied to its `&x` sub-patterns)
+                if src.s(ci) == '||' or src.s(pend + 1) == '->':
+                    raise Undecided('unsupported-construct', 'closure %d of %s: not a pattern-parameter closure' % (k, ft.name))
+                mm = re.match(r'\|\s*(\w+)\s*:', newhdr)
+                if not mm:
+                    raise Undecided('unsupported-construct', 'closure %d of %s: header must start with |name: T|' % (k, ft.name))
+                pat_txt = text[src.t(ci + 1).pos:src.t(pend - 1).end]
+                pat2, pre = rw_ref_pattern(pat_txt, fired, src.line_of(src.t(ci).pos))
+                a, b = src.t(ci).pos, src.t(pend).end
+                e = expr_end(src, pend + 1, cb)
+                ed.replace(a, b, '%s { let %s = %s; %s' % (newhdr.replace('\n', ' '), pat2.replace('\n', ' '), mm.group(1), pre)
+                           + keep_newlines(text[a:b]))
+                ed.insert(src.t(e - 1).end, ' }')
+                fired.append(('R19', src.line_of(a), 'closure %d: pattern parameter -> let' % k))
+                continue
             # annotation-only check: every identifier bound by the original parameter patterns
             # must also occur in the replacement header
             new_ids = set(t.s for t in rscan.tokenize(newhdr) if t.kind == 'ident')
@@ -738,6 +1017,9 @@ def splice_function(ft, directives, security=False):
                         continue
                     o2 = dict(o)
                     o2.setdefault('fn', ft.name)
+                    ml = re.search(r'//\s*\[([\w.\-]+)\]\s*$', ln)
+                    if ml and o2.get('o') == 'clause':
+                        o2['label'] = ml.group(1)
                     if o2.get('o') == 'src':
                         o2.update(file=ft.rel, line=cur_line)
                     lines.append((ln, o2))
@@ -815,6 +1097,14 @@ def extract_type(repo, rel, kind, name, opts, security, rec):
             f, ty = o.split(':', 1)
             opaque[f.strip()] = ty.strip()
     ob = rscan.find_block_open(s2, kw + 1)
+    if opts.get('drop_where') and ob is not None:
+        # R8 on a generic type: drop the where clause (bounds name traits outside the unit)
+        for k in range(kw + 1, ob):
+            if s2.s(k) == 'where':
+                wa, wb = s2.t(k).pos, s2.t(ob).pos
+                ed.replace(wa, wb, keep_newlines(text[wa:wb]))
+                fired.append(('R8', s2.line_of(wa) + first_line - 1, 'where clause dropped'))
+                break
     if kind == 'struct' and ob is not None:
         cb = s2.match[ob]
         # fields: split at depth-0 commas
@@ -909,6 +1199,9 @@ def extract_type(repo, rel, kind, name, opts, security, rec):
                 j = e + 1; continue
             j += 1
     body = ed.apply()
+    # doc comments are attributes: one left dangling after a dropped field (R9) is a syntax error
+    # -> turn `///` lines into plain comments (added for unit `fragments`; no semantic content)
+    body = re.sub(r'(?m)^(\s*)///', r'\1// ', body)
     derive = opts.get('derive')
     lines = []
     if derive:
@@ -921,6 +1214,117 @@ def extract_type(repo, rel, kind, name, opts, security, rec):
     fired.append(('R2', first_line, 'attributes dropped: %s' % '; '.join(it.attrs)))
     rec.append({'item': '%s %s' % (kind, name), 'file': rel, 'lines': [first_line, src.line_of(b)],
                 'sha256': sha, 'rewrites': [list(f) for f in fired]})
+    return lines
+
+
+def extract_const(repo, rel, selector, security, rec):
+    """`@@extract const <file> <NAME | Type::NAME>` (added for unit `fragments`): copies a `const`
+    item (top-level, or associated const of an inherent impl) verbatim; only the visibility is
+    widened to `pub` (R10)."""
+    src = load_src(repo, rel)
+    if '::' in selector:
+        ty, name = selector.rsplit('::', 1)
+    else:
+        ty, name = None, selector
+    cands = []
+    for it in rscan.top_items(src):
+        if ty is None:
+            if it.kind == 'const' and it.name == name and cfg_ok(it.attrs, security):
+                cands.append(it)
+        elif it.kind == 'impl' and it.open_si is not None:
+            tr, sty = rscan.impl_self_type(it.header)
+            if sty != ty or tr is not None or not cfg_ok(it.attrs, security):
+                continue
+            for sub in rscan.items_in(src, it.open_si + 1, it.end_si):
+                if sub.kind == 'const' and sub.name == name and cfg_ok(sub.attrs, security):
+                    cands.append(sub)
+    if len(cands) != 1:
+        raise Undecided('lost-anchor', 'const %s: %d candidates' % (selector, len(cands)))
+    it = cands[0]
+    end = it.end_si
+    if src.s(end) != ';':
+        if src.s(end + 1) != ';':
+            raise Undecided('unsupported-construct', 'const %s: cannot find terminating ;' % selector)
+        end += 1
+    kw = next(i for i in range(it.start_si, end) if src.s(i) == 'const')
+    a, k, b = src.t(it.start_si).pos, src.t(kw).pos, src.t(end).end
+    orig = src.text[a:b]
+    first_line = src.line_of(a)
+    fired = []
+    head = src.text[a:k]
+    if head.strip() != 'pub':
+        fired.append(('R10', first_line, 'visibility %r -> pub' % head.strip()))
+    body = 'pub ' + keep_newlines(head) + src.text[k:b]
+    lines = []
+    ln = first_line
+    for raw in body.split('\n'):
+        lines.append((raw, {'o': 'src', 'file': rel, 'line': ln, 'fn': 'const ' + selector}))
+        ln += 1
+    rec.append({'item': 'const %s' % selector, 'file': rel, 'lines': [first_line, src.line_of(b)],
+                'sha256': hashlib.sha256(orig.encode()).hexdigest(), 'rewrites': [list(f) for f in fired]})
+    return lines
+
+
+def extract_const_exec(repo, rel, selector, opts, security, rec):
+    """`@@extract const_exec <file> <Type::NAME | NAME> [ensures="<clauses>"]` (added for unit
+    `matching`, self-contained): copies a `const` item whose initialiser Verus only accepts in
+    exec mode (e.g. `[0x00; 3]`) as
+        `pub exec const NAME: T ensures <clauses> { EXPR }`
+    — NAME, T and EXPR are the verbatim source tokens; `= EXPR;` becomes the block form because
+    Verus has no other syntax for a const with a postcondition."""
+    src = load_src(repo, rel)
+    ty, name = selector.rsplit('::', 1) if '::' in selector else (None, selector)
+    cands = []
+    for it in rscan.top_items(src):
+        if ty is None:
+            if it.kind == 'const' and it.name == name and cfg_ok(it.attrs, security):
+                cands.append(it)
+        elif it.kind == 'impl' and it.open_si is not None:
+            tr, sty = rscan.impl_self_type(it.header)
+            if sty != ty or tr is not None or not cfg_ok(it.attrs, security):
+                continue
+            for sub in rscan.items_in(src, it.open_si + 1, it.end_si):
+                if sub.kind == 'const' and sub.name == name and cfg_ok(sub.attrs, security):
+                    cands.append(sub)
+    if len(cands) != 1:
+        raise Undecided('lost-anchor', 'const %s: %d candidates' % (selector, len(cands)))
+    it = cands[0]
+    end = it.end_si
+    if src.s(end) != ';':
+        if src.s(end + 1) != ';':
+            raise Undecided('unsupported-construct', 'const %s: cannot find terminating ;' % selector)
+        end += 1
+    kw = next(i for i in range(it.start_si, end) if src.s(i) == 'const')
+    eq = None
+    j = kw + 1
+    while j < end:
+        s = src.s(j)
+        if s in rscan.OPEN:
+            j = src.match[j] + 1; continue
+        if s == '<':
+            j = src.skip_generics(j); continue
+        if s == '=':
+            eq = j; break
+        j += 1
+    if eq is None:
+        raise Undecided('unsupported-construct', 'const %s: no initialiser' % selector)
+    a, b = src.t(it.start_si).pos, src.t(end).end
+    orig = src.text[a:b]
+    first_line = src.line_of(a)
+    head = src.text[a:src.t(kw).pos]
+    ens = (opts.get('ensures') or '').strip()
+    body = ('pub exec ' + keep_newlines(head) + src.text[src.t(kw).pos:src.t(eq).pos]
+            + ((' ensures ' + ens + ' ') if ens else ' ') + '{'
+            + src.text[src.t(eq).end:src.t(end).pos] + '}')
+    lines = []
+    ln = first_line
+    for raw in body.split('\n'):
+        lines.append((raw, {'o': 'src', 'file': rel, 'line': ln, 'fn': 'const ' + selector}))
+        ln += 1
+    rec.append({'item': 'const %s' % selector, 'file': rel, 'lines': [first_line, src.line_of(b)],
+                'sha256': hashlib.sha256(orig.encode()).hexdigest(),
+                'rewrites': [['R10', first_line, 'visibility %r -> pub' % head.strip()],
+                             ['R20', first_line, 'const NAME: T = E; -> exec const NAME: T ensures .. { E }']]})
     return lines
 
 
@@ -977,9 +1381,9 @@ def build_unit(verif_root, repo, unit, security=None):
             if st.startswith('@@extract '):
                 pos, kv = parse_kv(st[len('@@extract '):])
                 kind = pos[0]
-                if kind == 'fn':
+                if kind in ('fn', 'arm'):
                     rel, sel = pos[1], pos[2]
-                    if len(pos) > 3:
+                    if kind == 'fn' and len(pos) > 3:
                         sel = ' '.join(pos[2:])
                     # collect sub-directives until @@end
                     ds = []
@@ -1000,6 +1404,18 @@ def build_unit(verif_root, repo, unit, security=None):
                         raise Undecided('unsupported-construct', '%s: @@extract fn without @@end' % relpath)
                     i += 1
                     sec = unit_security[0] if 'cfg' not in kv else (kv['cfg'] == 'security')
+                    if kind == 'arm':
+                        # R11: @@extract arm <file> <Type::fn> "<arm pattern tokens>" as=<name> params="<param list>"
+                        if len(pos) != 4 or 'as' not in kv or 'params' not in kv:
+                            raise Undecided('unsupported-construct', '%s: @@extract arm needs <file> <fn> "<pattern>" as= params=' % relpath)
+                        ft = ArmText(repo, rel, sel, pos[3], kv['as'], kv['params'], sec, kv.get('impl'),
+                                     int(kv['nth']) if 'nth' in kv else None)
+                        lines = splice_function(ft, ds, sec)
+                        out_lines.extend(lines)
+                        record.append({'item': 'fn ' + ft.name, 'file': rel, 'lines': [ft.arm_first_line, ft.last_line],
+                                       'sha256': ft.sha, 'rewrites': [list(f) for f in ft.fired], 'arm_of': sel,
+                                       'labels': sorted({o['label'] for _, o in lines if o.get('o') == 'clause' and 'label' in o})})
+                        continue
                     ft = FnText(repo, rel, sel, sec, kv.get('impl'), int(kv['nth']) if 'nth' in kv else None)
                     if 'as' in kv:
                         d = Directive('rename', kv['as'], 0)
@@ -1013,10 +1429,49 @@ def build_unit(verif_root, repo, unit, security=None):
                                    'sha256': ft.sha, 'rewrites': [list(f) for f in ft.fired],
                                    'labels': sorted({o['label'] for _, o in lines if o.get('o') == 'clause' and 'label' in o})})
                     continue
+                elif kind == 'const':
+                    # associated or free constant, copied verbatim (visibility widened, R10)
+                    rel, sel = pos[1], pos[2]
+                    src = load_src(repo, rel)
+                    ty, name = (sel.rsplit('::', 1) + [None])[:2] if '::' in sel else (None, sel)
+                    cands = []
+                    for it in rscan.top_items(src):
+                        if ty is None:
+                            if it.kind == 'const' and it.name == name and cfg_ok(it.attrs, unit_security[0]):
+                                cands.append(it)
+                        elif it.kind == 'impl' and it.open_si is not None:
+                            tr, sty = rscan.impl_self_type(it.header)
+                            if sty != ty or tr is not None or not cfg_ok(it.attrs, unit_security[0]):
+                                continue
+                            for sub in rscan.items_in(src, it.open_si + 1, it.end_si):
+                                if sub.kind == 'const' and sub.name == name and cfg_ok(sub.attrs, unit_security[0]):
+                                    cands.append(sub)
+                    if len(cands) != 1:
+                        raise Undecided('lost-anchor', 'const %s: %d candidates' % (sel, len(cands)))
+                    it = cands[0]
+                    kwsi = next(k for k in range(it.start_si, it.end_si) if src.s(k) == 'const')
+                    a, b = src.t(kwsi).pos, src.t(it.end_si).end
+                    txt = src.text[a:b]
+                    l0 = src.line_of(a)
+                    for k, raw_ln in enumerate(('pub ' + txt).split('\n')):
+                        out_lines.append((raw_ln, {'o': 'src', 'file': rel, 'line': l0 + k, 'fn': 'const ' + sel}))
+                    record.append({'item': 'const ' + sel, 'file': rel, 'lines': [l0, src.line_of(b)],
+                                   'sha256': hashlib.sha256(txt.encode()).hexdigest(), 'rewrites': [['R10', l0, 'visibility -> pub']]})
+                    i += 1
+                    continue
+                elif kind == 'const_exec':
+                    out_lines.extend(extract_const_exec(repo, pos[1], pos[2], kv, unit_security[0], record))
+                    i += 1
+                    continue
                 elif kind in ('struct', 'enum'):
                     rel, name = pos[1], pos[2]
                     lines = extract_type(repo, rel, kind, name, kv, unit_security[0], record)
                     out_lines.extend(lines)
+                    i += 1
+                    continue
+                elif kind == 'const':
+                    rel, name = pos[1], pos[2]
+                    out_lines.extend(extract_const(repo, rel, name, unit_security[0], record))
                     i += 1
                     continue
                 else:
